@@ -194,7 +194,39 @@ def timeseries_workload(rng):
             "data": data, "kwargs": {"return_only_persistent": False}, "env": {}, "output_folder": False, "meta": {"timeseries": ttype}}
 
 
+def dates_workload(rng):
+    """Small inputs with two or three Date measures whose time-of-day values sit in different rows (plus nulls):
+    how a Date column is stored and rendered must be a function of the set of its values."""
+    nd = rng.choice([2, 2, 3])
+    comps = [{"name": "Id_1", "type": "Integer", "role": "Identifier", "nullable": False}] + \
+            [{"name": "Me_%d" % (i + 1), "type": "Date", "role": "Measure", "nullable": True} for i in range(nd)] + \
+            [{"name": "Me_n", "type": "Number", "role": "Measure", "nullable": True}]
+    cols = [c["name"] for c in comps]
+    n = rng.choice([3, 4, 5, 6])
+    rows = []
+    for i in range(n):
+        r = [i + 1]
+        for j in range(nd):
+            if (i + j) % n == 0:
+                r.append(rng.choice(["2020-03-0%d 10:30:00" % (j + 1), "2021-07-1%dT18:45:00" % j]))
+            else:
+                r.append(None if rng.random() < 0.15 else "2020-0%d-1%d" % (1 + (i + j) % 9, j))
+        r.append(None if rng.random() < 0.2 else float(rng.choice([1, 2, 3, 5])))
+        rows.append(r)
+    kind = rng.choice(["df", "csv_text", "csv_text", "parquet_df"])
+    data = {"DS_1": {"kind": "csv_text", "text": gen.csv_text(cols, rows)} if kind == "csv_text" else {"kind": kind, "columns": cols, "rows": rows}}
+    stmts = rng.sample(["R_c <- DS_1;", "R_k <- DS_1[calc Me_x := Id_1 + 1];", "R_f <- DS_1[filter Me_n > 1 or isnull(Me_n)];",
+                        "R_m <- DS_1[aggr Me_a := max(Me_1), Me_b := min(Me_2) group by Id_1];", "R_s <- DS_1[calc Me_s := cast(Me_1, string)];",
+                        "R_p <- DS_1[keep Me_2, Me_n];"], rng.choice([1, 2, 3]))
+    return {"api": "run", "script": "\n".join(stmts) + "\n", "structures": {"datasets": [{"name": "DS_1", "DataStructure": comps}]},
+            "data": data, "kwargs": {"return_only_persistent": False}, "env": {}, "output_folder": rng.random() < 0.3, "meta": {"dates": nd}}
+
+
 def _make_op(src):
+    if src[0] == "dates":
+        o = dates_workload(random.Random(src[1]))
+        o["sid"] = "dates:%d" % src[1]
+        return o
     if src[0] == "dag":
         rng = random.Random(src[1])
         w = gen_dag.generate(rng, rows=rng.choice([3, 4, 5, 6, 8]), n_statements=rng.choice([1, 2, 3, 4]))
@@ -289,6 +321,7 @@ def run(ctx):
     items += [("corpus", e) for e in rng.sample(cps, min(n_corpus, len(cps)))]
     rng.shuffle(items)
     ts = [("tseries", rng.randrange(1 << 30)) for _ in range(60 if quick else 2500)]
+    ts = [x for pair in zip(ts, [("dates", rng.randrange(1 << 30)) for _ in range(len(ts))]) for x in pair]
     items = [("sample", rng.randrange(1 << 30)) for _ in range(6 if quick else 200)] + ts[:16] + items
     for i, x in enumerate(ts[16:]):
         items.insert(min(len(items), 24 + i * 5), x)
